@@ -118,7 +118,7 @@ def _cart_scale(s, cls):
 
 
 def shards(tier):
-    n = 5 if tier == "quick" else 50
+    n = 5 if tier == "quick" else 120
     return [{"id": f"{la}{lb}", "la": la, "lb": lb, "n": n, "cost": n * (1 + la + lb)}
             for la in range(5) for lb in range(5)]
 
